@@ -118,7 +118,15 @@ pub fn run_script(prog: &str, reference: &[u16], script: &[Op], schedule: &[usiz
     let machine = Machine::new(Arc::new(RwLock::new(boxed)));
 
     let truth = |sched: &Sched| -> Truth {
-        let r = runner.read().unwrap();
+        // (the machine thread may be parked inside its critical section: then the harness waits, as a scheduled
+        // thread, until the machine is readable again)
+        let r = match runner.try_read() {
+            Ok(r) => r,
+            Err(_) => {
+                crate::verif_hooks::point_read("h:truth", &runner);
+                runner.read().unwrap()
+            }
+        };
         Truth {
             // the machine thread keeps the state locked while it works on an instruction: then it is Running
             state: state.try_lock().map(|g| *g).unwrap_or(MachineRunningState::Running),
